@@ -250,6 +250,29 @@ def gen_exhaustive(tier, seed):
     return cases
 
 
+def deep_monitor(case, il, sl):
+    """Everything submitted before the (single) wake-up is on the wire after the final flush."""
+    v = monitor(case, il, sl)
+    if v:
+        return v
+    import refmon
+    tr = refmon.Trace(case, il)
+    submitted = sum(len(o.split()[3]) // 2 for o in case.ops if o.startswith("send ") and o.split()[2] == "send" and o.split()[3].startswith("03"))
+    body_written = 0
+    for o, g in tr.al:
+        for l in g:
+            if l.startswith("wrote ") and l != "wrote -":
+                b = bytes.fromhex(l.split()[1])
+                try:
+                    frs, _rest = amqp.split_frames(b)
+                except ValueError:
+                    return None
+                body_written += sum(len(p) + 8 for ft, ch, p in frs if ft == 3)
+    if body_written != submitted:
+        return ("%d bytes of body frames were waiting in the channel's queue at its wake-up; after the wake-up and a flush only %d are on the wire (the rest is still in the queue, and an edge-triggered queue raises no further event)" % (submitted, body_written), "c01-left-in-queue")
+    return None
+
+
 def suites(tier, seed):
     return [
         Suite("timers-with-backlog", "machine", lambda: [__import__("hbgen").session(Rng(seed * 13 + i), "t%d" % i, h_choices=(400, 300), stall_bias=True, steps=(6, 10)) for i in range(12 if tier == "quick" else 120)] + __import__("hbgen").tx_with_data_queued_cases(Rng(seed + 3)),
@@ -258,7 +281,7 @@ def suites(tier, seed):
         Suite("handles-submit-whole-frames", "api", lambda: [c for c in __import__("props.c02", fromlist=["x"]).sweep(tier, seed) if c.cid.startswith("s-max") or int(c.cid[1:]) % 3 == 0],
               monitor=__import__("props.c02", fromlist=["x"]).monitor, nontrivial=lambda c, il: True, canon=__import__("apigen").canon,
               rule="assumption A2 checked: whatever a channel handle puts into its queue towards the I/O thread is a whole frame (publishes with bodies of 0 ... 300 000 bytes at frame_max 4096 ... 2^32-1 through the public API; each queue entry decoded strictly) - frames of different channels can then interleave only at frame boundaries"),
-        Suite("deep-queue-one-wake-up", "machine", lambda: mg.deep_queue_cases(Rng(seed + 64)), monitor=monitor, nontrivial=lambda c, il: True, canon=mg.canon_nondet, shrink=False, exhaustive=True,
+        Suite("deep-queue-one-wake-up", "machine", lambda: mg.deep_queue_cases(Rng(seed + 64)), monitor=deep_monitor, nontrivial=lambda c, il: True, canon=mg.canon_nondet, shrink=False, exhaustive=True,
               rule="63, 64, 65, 100, 128, 129, 201, 299 frames waiting in one channel's queue (bound 300) when its single, edge-triggered wake-up is handled: one handler run takes them all, in order; the real Poll reports nothing left afterwards"),
         Suite("first-writes-e2e", "hswrite", lambda: __import__("passlog").hswrite_cases(tier), monitor=__import__("passlog").hswrite_monitor, nontrivial=lambda c, il: True, compare=False, shards=4, shrink=False, timeout=200,
               rule="real connection over the edge-triggered mock transport, which takes only the first 0..12 / 20 / ... / 300 bytes (would-block inside the protocol header, inside StartOk, TuneOk, Open; optionally 1-7 bytes per call) and becomes willing again 250 ms later: the rest is written and the connection opens"),
